@@ -639,6 +639,10 @@ pub fn encoders() -> Vec<Encoder> {
         }) } });
         v.push(Encoder { name: "Debug for Element (hex)", f: |e| unhex(&format!("{e:?}"), "decaf377::Element(") });
         v.push(Encoder { name: "Display for Element (hex)", f: |e| unhex(&format!("{e}"), "decaf377::Element(") });
+        v.push(Encoder { name: "Debug for Element (alternate {:#?})", f: |e| unhex(&format!("{e:#?}"), "decaf377::Element(") });
+        v.push(Encoder { name: "Display for Element (alternate {:#})", f: |e| unhex(&format!("{e:#}"), "decaf377::Element(") });
+        v.push(Encoder { name: "Debug for AffinePoint (alternate {:#?})", f: |e| unhex(&format!("{:#?}", e.into_affine()), "decaf377::AffinePoint(") });
+        v.push(Encoder { name: "Debug for Encoding (alternate {:#?})", f: |e| unhex(&format!("{:#?}", e.vartime_compress()), "decaf377::Encoding(") });
         v.push(Encoder { name: "Debug for AffinePoint (hex)", f: |e| unhex(&format!("{:?}", e.into_affine()), "decaf377::AffinePoint(") });
         v.push(Encoder { name: "Display for AffinePoint (hex)", f: |e| unhex(&format!("{}", e.into_affine()), "decaf377::AffinePoint(") });
         v.push(Encoder { name: "Debug for Encoding (hex)", f: |e| unhex(&format!("{:?}", e.vartime_compress()), "decaf377::Encoding(") });
